@@ -178,6 +178,11 @@ func cmdDump(args []string) {
 				sort.Strings(gs)
 				fmt.Printf("        gates: %s\n", strings.Join(gs, "  ∧  "))
 			}
+			if os.Getenv("DBGSEL") != "" {
+				for i, n := range a.selLoc {
+					fmt.Printf("   sel s%d at ctx=%d fn=%s block=%d idx=%d (%s)\n", i, n.ctx.id, n.ctx.fn.Name(), n.b.Index, n.idx, n.b.Comment)
+				}
+			}
 			if verbose {
 				for _, ex := range a.Exits() {
 					fmt.Printf("   exit %s results=%v\n", w.pos(ex.Instr.Pos()), ex.Results)
